@@ -11,6 +11,8 @@ RULE = ('case = (strategy, MIN_TIMESTAMP_LAG, update/create limits, MAX_UPDATES_
         'second preemption, seeded random; oracle at writer-thread exit: every datapoint stored before the stop was initiated '
         'is written, counted as dropped create or reported as an error - none is still cached; non-trivial = execution in which '
         'the stop arrived while >=1 datapoint was cached or the writer was asleep; distinct = distinct interleavings per workload')
+RULE_MORE = (' Further families: damaged files (every write to a set of series raises) with a burst over all series right before the stop; cache queries for absent series; timestamps outside any calendar; TokenBucket lines are scheduling points when an update limit is set.')
+RULE = RULE + RULE_MORE
 EXHAUSTIVE = {'quick': True, 'thorough': True}
 EXHAUSTIVE_OVER = 'all single-preemption placements (stop/last store vs every writer line step) of every generated workload'
 ASSUMPTIONS = ['non-failing backend (faults are C03\'s subject)', 'virtual time <= 1 h; two threads; line granularity']
